@@ -4,8 +4,8 @@ import StoneVerif.Model.FeNames
 
 The proofs work on the pair `(D, N)` = (declarations processed so far, namespace lines processed so far) and on
 an invariant `Inv st D N` that describes the two dictionaries of the state in terms of `(D, N)`.  The invariant is
-purely operational (it holds in every state reached without an error, ambiguous keys or not); the hypothesis
-`ConcatUnambiguous` is only used to translate "equal key" into "equal canonical parts".
+purely operational (it holds in every state reached without an error); `ConcatUnambiguous` -- which follows from
+the separator in the key, `concatUnambiguous_of_nsLexical` -- translates "equal key" into "equal canonical parts".
 -/
 namespace StoneVerif.FeNames
 open StoneVerif.FeParams (PyExc)
@@ -24,7 +24,7 @@ def parts (D : List Decl) (N : List Name) : List (Name × Name) :=
   D.map (fun a => (canonName a.item.name, canonNs a.ns)) ++ N.map (fun m => (canonNs m, canonNs m))
 
 def UA (D : List Decl) (N : List Name) : Prop :=
-  ∀ p ∈ parts D N, ∀ q ∈ parts D N, p.1 ++ p.2 = q.1 ++ q.2 → p = q
+  ∀ p ∈ parts D N, ∀ q ∈ parts D N, p.1 ++ sep ++ p.2 = q.1 ++ sep ++ q.2 → p = q
 
 theorem noClash_iff (fs : List File) : NoClash fs ↔ NC (decls fs) (namespaces fs) := Iff.rfl
 theorem concatUnambiguous_iff (fs : List File) : ConcatUnambiguous fs ↔ UA (decls fs) (namespaces fs) := Iff.rfl
@@ -48,7 +48,7 @@ theorem UA.decl_decl {D N} (h : UA D N) {a b : Decl} (ha : a ∈ D) (hb : b ∈ 
 theorem UA.decl_ns {D N} (h : UA D N) {a : Decl} {m : Name} (ha : a ∈ D) (hm : m ∈ N) (hl : canonName m = canonNs m)
     (hk : key m m = dkey a) :
     canonName a.item.name = canonNs m ∧ canonNs a.ns = canonNs m := by
-  have hk : canonNs m ++ canonNs m = dkey a := by rw [← hk, key, hl]
+  have hk : canonNs m ++ sep ++ canonNs m = dkey a := by rw [← hk, key, hl]
   have := h (canonName a.item.name, canonNs a.ns) (by simp only [parts, List.mem_append, List.mem_map]; exact .inl ⟨a, ha, rfl⟩)
     (canonNs m, canonNs m) (by simp only [parts, List.mem_append, List.mem_map]; exact .inr ⟨m, hm, rfl⟩) hk.symm
   simpa using this
@@ -586,16 +586,94 @@ def NsLexical (fs : List File) : Prop := ∀ m ∈ namespaces fs, '/' ∉ m
 
 instance (fs : List File) : Decidable (NsLexical fs) := by unfold NsLexical; infer_instance
 
-/-- **C01 (partial).** With unambiguous concatenated keys (and namespace names free of `/`, which the lexer
-guarantees), the registration pass accepts a set of files iff its names obey the documented rules.
-Partial: `ConcatUnambiguous` is an assumption -- today's `_get_base_name` concatenates without a separator and the
-statement is false without it (`register_refuses_legal`, `register_order_dependent`). -/
-theorem register_ok_iff_noclash_partial (fs : List File) (hu : ConcatUnambiguous fs) (hl : NsLexical fs) :
+/-! ## The separator makes the keys unambiguous -/
+
+theorem sep_eq : sep = ['/'] := by decide
+
+/-- the separator `_get_base_name` inserts, as extracted from the code -/
+theorem canonical_sep_table : Tables.feCanonicalSep = "/" := by decide
+
+theorem toLower_ne_slash (c : Char) (h : c ≠ '/') : c.toLower ≠ '/' := by
+  intro e
+  unfold Char.toLower at e
+  split at e
+  · rename_i hc
+    have h1 := congrArg (fun x => x.val.toNat) e
+    simp only [UInt32.toNat_add] at h1
+    have h2 : 65 ≤ c.val.toNat := UInt32.le_iff_toNat_le.mp hc.1
+    have h3 : c.val.toNat ≤ 90 := UInt32.le_iff_toNat_le.mp hc.2
+    have h4 : ('a'.val - 'A'.val).toNat = 32 := by decide
+    have h5 : ('/' : Char).val.toNat = 47 := by decide
+    rw [h4, h5] at h1
+    omega
+  · exact h e
+
+theorem slash_not_mem_lower {l : Name} (h : '/' ∉ l) : '/' ∉ lower l := by
+  intro hm
+  obtain ⟨c, hc, e⟩ := List.mem_map.mp hm
+  exact toLower_ne_slash c (fun e' => h (e' ▸ hc)) e
+
+/-- the first part of a key never contains the separator: `/` is one of the characters `canonName` strips -/
+theorem slash_not_mem_canonName (s : Name) : '/' ∉ canonName s := by
+  apply slash_not_mem_lower
+  intro hm
+  have := (List.mem_filter.mp hm).2
+  simp at this
+
+theorem slash_not_mem_canonNs {m : Name} (h : '/' ∉ m) : '/' ∉ canonNs m := by
+  apply slash_not_mem_lower
+  intro hm
+  exact h (List.mem_filter.mp hm).1
+
+/-- a key splits at its first `/` -/
+theorem sep_split {a a' b b' : Name} (ha : '/' ∉ a) (ha' : '/' ∉ a') (h : a ++ sep ++ b = a' ++ sep ++ b') :
+    a = a' ∧ b = b' := by
+  rw [sep_eq] at h
+  induction a generalizing a' with
+  | nil =>
+    cases a' with
+    | nil => simpa using h
+    | cons c t =>
+      simp only [List.nil_append, List.cons_append, List.cons.injEq] at h
+      exact absurd h.1.symm (fun e => ha' (e ▸ List.mem_cons_self))
+  | cons c t ih =>
+    cases a' with
+    | nil =>
+      simp only [List.nil_append, List.cons_append, List.cons.injEq] at h
+      exact absurd h.1 (fun e => ha (e ▸ List.mem_cons_self))
+    | cons c' t' =>
+      simp only [List.cons_append, List.cons.injEq] at h
+      obtain ⟨rfl, h⟩ := h
+      obtain ⟨rfl, rfl⟩ := ih (fun hm => ha (List.mem_cons_of_mem _ hm)) (fun hm => ha' (List.mem_cons_of_mem _ hm))
+        (by simpa using h)
+      exact ⟨rfl, rfl⟩
+
+/-- Namespace names are identifiers, so no two different (name part, namespace part) pairs share a key. -/
+theorem concatUnambiguous_of_nsLexical (fs : List File) (hl : NsLexical fs) : ConcatUnambiguous fs := by
+  have hfree : ∀ p ∈ keyParts fs, '/' ∉ p.1 := by
+    intro p hp
+    simp only [keyParts, List.mem_append, List.mem_map] at hp
+    rcases hp with ⟨a, _, rfl⟩ | ⟨m, hm, rfl⟩
+    · exact slash_not_mem_canonName _
+    · exact slash_not_mem_canonNs (hl m hm)
+  intro p hp q hq h
+  obtain ⟨h1, h2⟩ := sep_split (hfree p hp) (hfree q hq) h
+  exact Prod.ext h1 h2
+
+/-- the statement for given unambiguous keys (kept as the workhorse; `ConcatUnambiguous` is discharged below) -/
+theorem register_ok_iff_noclash_of_unambiguous (fs : List File) (hu : ConcatUnambiguous fs) (hl : NsLexical fs) :
     isOk (register fs) = true ↔ NoClash fs := by
   have := registerFrom_main (st := {}) (D := []) (N := []) fs Inv.init NC.nil
     (by simpa using (concatUnambiguous_iff fs).mp hu)
     (by simpa using fun m hm => canonName_eq_canonNs (hl m hm))
   simpa [register, noClash_iff] using this
+
+/-- **C01 (full strength).** The registration pass accepts a set of files iff its names obey the documented rules
+(`NoClash`: A8 - A10, B19).  `NsLexical` is not a restriction on compiler inputs: namespace names are `ID` tokens
+of the lexer, which cannot contain `/` (`nsLexical_needed` shows what the hypothesis keeps out). -/
+theorem register_ok_iff_noclash (fs : List File) (hl : NsLexical fs) :
+    isOk (register fs) = true ↔ NoClash fs :=
+  register_ok_iff_noclash_of_unambiguous fs (concatUnambiguous_of_nsLexical fs hl) hl
 
 /-! ## Order independence -/
 
@@ -616,32 +694,29 @@ theorem SameDecls.concatUnambiguous {fs fs' : List File} (h : SameDecls fs fs') 
 theorem SameDecls.nsLexical {fs fs' : List File} (h : SameDecls fs fs') (hl : NsLexical fs) : NsLexical fs' :=
   fun m hm => hl m ((h.2 m).mpr hm)
 
-/-- **C01 (partial).** Acceptance does not depend on the order of declarations or files, nor on how a namespace is
-split into files.  Partial: needs `ConcatUnambiguous` (see `register_order_dependent`). -/
-theorem register_perm_partial (fs fs' : List File) (h : SameDecls fs fs') (hu : ConcatUnambiguous fs)
-    (hl : NsLexical fs) : isOk (register fs) = isOk (register fs') := by
-  rw [Bool.eq_iff_iff, register_ok_iff_noclash_partial fs hu hl,
-    register_ok_iff_noclash_partial fs' (h.concatUnambiguous hu) (h.nsLexical hl)]
+/-- **C01 (full strength).** Acceptance does not depend on the order of declarations or files, nor on how a
+namespace is split into files. -/
+theorem register_perm (fs fs' : List File) (h : SameDecls fs fs') (hl : NsLexical fs) :
+    isOk (register fs) = isOk (register fs') := by
+  rw [Bool.eq_iff_iff, register_ok_iff_noclash fs hl, register_ok_iff_noclash fs' (h.nsLexical hl)]
   exact ⟨h.noClash, h.symm.noClash⟩
 
-/-! ## The full-strength statements fail on today's code -/
+/-! ## Regression: the inputs on which the separator-less key failed -/
 
-/-- type `Ab` in namespace `c` and type `A` in namespace `bc`: both keys are `abc` -/
-theorem register_refuses_legal : ∃ fs, NoClash fs ∧ isOk (register fs) = false :=
-  ⟨[⟨"c".toList, [⟨.type, "Ab".toList⟩]⟩, ⟨"bc".toList, [⟨.type, "A".toList⟩]⟩], by decide⟩
+/-- type `Ab` in namespace `c` and type `A` in namespace `bc` (both keys used to be `abc`): accepted -/
+theorem concat_legal_accepted :
+    NoClash [⟨"c".toList, [⟨.type, "Ab".toList⟩]⟩, ⟨"bc".toList, [⟨.type, "A".toList⟩]⟩] ∧
+    isOk (register [⟨"c".toList, [⟨.type, "Ab".toList⟩]⟩, ⟨"bc".toList, [⟨.type, "A".toList⟩]⟩]) = true := by decide
 
-/-- the namespace line of `abcabc` silently shadows the entry of type `abc` of namespace `abcabcabc` (key
-`abc`+`abcabcabc` = `abcabc`+`abcabc`); in the other order the type is refused -/
-theorem register_order_dependent : ∃ fs fs', SameDecls fs fs' ∧ isOk (register fs) ≠ isOk (register fs') :=
-  ⟨[⟨"abcabcabc".toList, [⟨.type, "abc".toList⟩]⟩, ⟨"abcabc".toList, [⟨.type, "X".toList⟩]⟩],
-   [⟨"abcabc".toList, [⟨.type, "X".toList⟩]⟩, ⟨"abcabcabc".toList, [⟨.type, "abc".toList⟩]⟩],
-   ⟨by simp only [decls, List.flatMap_cons, List.flatMap_nil, List.map_cons, List.map_nil, List.append_nil,
-        List.cons_append, List.nil_append]
-       exact List.Perm.swap _ _ _,
-    by simp [namespaces]; intro m; exact Or.comm⟩, by decide⟩
+/-- type `abc` of namespace `abcabcabc` against the namespace line of `abcabc` (used to be accepted in one file
+order and refused in the other): accepted in both -/
+theorem concat_order_independent :
+    isOk (register [⟨"abcabcabc".toList, [⟨.type, "abc".toList⟩]⟩, ⟨"abcabc".toList, [⟨.type, "X".toList⟩]⟩]) = true ∧
+    isOk (register [⟨"abcabc".toList, [⟨.type, "X".toList⟩]⟩, ⟨"abcabcabc".toList, [⟨.type, "abc".toList⟩]⟩]) = true := by
+  decide
 
-/-- a namespace name with `/` (impossible for the lexer) breaks the equivalence for another reason: the namespace
-key is `canonName ns ++ canonNs ns`, the documented rule compares with `canonNs ns` -/
+/-- a namespace name with `/` (impossible for the lexer) breaks the equivalence: the namespace line is keyed by
+`canonName ns` (which strips the `/`), the documented rule compares with `canonNs ns` -/
 theorem nsLexical_needed : ∃ fs, ConcatUnambiguous fs ∧ NoClash fs ∧ isOk (register fs) = false :=
   ⟨[⟨"a/".toList, [⟨.route 1, "a/".toList⟩]⟩], by decide⟩
 
